@@ -738,6 +738,16 @@ def gen_query_like(rng, origin=None, size="small", opcode=None, with_opt=True, w
             rs = gen_rrset(rng, pool, rdclass, used=used, section=s)
             if rs is not None:
                 secs[s].append(rs)
+                if rs[2] == RRSIG and rng.random() < 0.6:
+                    # a second RRSIG set with the same owner covering another type (the index key has `covers`)
+                    sib = gen_rrset(rng, pool, rdclass, types=[RRSIG], used=None, section=s)
+                    if sib is not None and sib[3] != rs[3]:
+                        sib[0] = rs[0]
+                        full = sib[0] if (sib[0] and sib[0][-1] == b"") or pool.origin is None else sib[0] + pool.origin
+                        key = (tuple(lower(l) for l in full), sib[1], sib[2], sib[3], None)
+                        if key not in used:
+                            used.add(key)
+                            secs[s].append(sib)
     opt = gen_opt(rng) if with_opt else None
     tsig = gen_tsig(rng, pool, mid) if with_tsig else None
     return [mid, flags, secs, opt, tsig]
